@@ -1,0 +1,16 @@
+//go:build verif
+// +build verif
+
+package config
+
+// VerifSet installs a configuration for the verification harness
+// (auth flag, cache_gop, hlsfragment, hlspath) without reading files or flags.
+func VerifSet(auth, cacheGop bool, hlsFragment int, hlsPath string) {
+	c := new(config)
+	c.ListenAddr = ":554"
+	c.Auth = auth
+	c.CacheGop = cacheGop
+	c.HlsFragment = hlsFragment
+	c.HlsPath = hlsPath
+	globalC = c
+}
